@@ -283,14 +283,20 @@ def derive_shape(ctx, rule='A5'):
            'added edges)', short(unpack[0], 120) if unpack else 'not found')
     # get_for_adjusted applies removals and additions to the copy
     fn = ctx.fn(f'{DSG}.get_for_adjusted')
-    cfg = build_cfg(fn)
-    ops = {}
-    for nm in ('remove_edges_from', 'remove_nodes_from', 'add_edges_from'):
-        ns = guards.call_nodes(cfg, nm, pred=lambda c: 'graph_copy' in norm(c.func))
-        ops[nm] = ns
-    ok = all(ops[k] for k in ops) and ops['remove_nodes_from'][0].lineno < [
-        n for n in ops['add_edges_from'] if 'added_edges' in norm(n.ast)][0].lineno if all(ops.values()) and any(
-        'added_edges' in norm(n.ast) for n in ops['add_edges_from']) else False
+    ok = False
+    for f_ in unit_functions(ctx.prog, fn):
+        by_recv = {}
+        for c in walk_fn(f_):
+            if isinstance(c, ast.Call) and isinstance(c.func, ast.Attribute) and \
+                    c.func.attr in ('remove_edges_from', 'remove_nodes_from', 'add_edges_from') and c.args:
+                by_recv.setdefault(norm(c.func.value), {}).setdefault(c.func.attr, []).append(c)
+        for recv, ops in by_recv.items():
+            if all(k in ops for k in ('remove_edges_from', 'remove_nodes_from', 'add_edges_from')):
+                # the edges added last are the modification's added edges (not the copy of the old edge set)
+                last_add = max(ops['add_edges_from'], key=lambda c: c.lineno)
+                if ops['remove_nodes_from'][0].lineno < last_add.lineno and \
+                        ops['remove_edges_from'][0].lineno < last_add.lineno:
+                    ok = True
     ctx.ob(rule, fkey(fn, rule, 'copy-modified'), ok, fn.where,
            'get_for_adjusted removes the given edges and nodes from the copy and adds the given edges afterwards '
            '(an edge added before the node removal could be removed again)',
